@@ -6,7 +6,7 @@ from vlib.workers import ALL, WorkerDied, WorkerSet
 
 PROPERTY = "C03"
 LEVEL = "exploration"
-RULE = ("Each point is extracted with and without contexts: nothing but the contexts may differ (frames, lines, hide flags, origins). Chains of depth 0..6 whose links are drawn from {await coroutine, await generator-based coroutine, await object "
+RULE = ("(Fixed scenario: an async generator that finished while its aclose() awaitable was thrown into - ag_running stale - yields no frames.) Each point is extracted with and without contexts: nothing but the contexts may differ (frames, lines, hide flags, origins). Chains of depth 0..6 whose links are drawn from {await coroutine, await generator-based coroutine, await object "
         "whose __await__ returns a coroutine wrapper / is a generator / returns a plain generator, async for / __anext__ / "
         "asend / athrow / aclose on a native async generator, asend(VALUE) into a running async generator with VALUE a suspended async generator / generator / coroutine / object with generator-like attributes / int, the anext() builtin in its one- and two-argument forms over a native async generator and over a class-based async iterator (3.10+; plain __anext__ on 3.9)}, outermost object a coroutine, generator, generator-based "
         "coroutine or async generator, ending in a trap (suspending 1-3 times), a future-like non-frame awaitable or a list "
@@ -63,6 +63,8 @@ def deep_chains():
     # a fixed scenario outside the chain grammar: await anext(it, default) where it.__anext__() hands out an awaitable that
     # is also a sequence (a tuple subclass holding an unrelated suspended coroutine): nothing of that tuple is part of the chain
     out.append({"special": "anext_sequence_awaitable"})
+    # an async generator that finished while its aclose() awaitable was thrown into: ag_frame None, ag_running still set
+    out.append({"special": "exhausted_agen_with_running_flag"})
     return out
 
 
